@@ -4,7 +4,7 @@ nth_prime.cpp:108–125 uses the object (`primesieve::iterator iter(start, stop)
 
 * `firstNext e n hint`      : what the first `next_prime()` of a fresh `iterator(n, hint)` returns (0 if it throws).
 * `realPrimeIter e hp hn`   : `nextGe s := firstNext e s (hn s)`, `prevLe s := firstPrev e s (hp s)` (`hn`, `hp`: the stop hints).
-* `FwdAt s p`, `nextPrime_refill`, `nextPrime_step` : one more `next_prime()` of ONE running forward object (in-buffer step
+* `FwdAt s p`, `nextPrime_refill`, `nextPrime_stepAt` : one more `next_prime()` of ONE running forward object (in-buffer step
                               `primes_[++i_]` or refill `generate_next_primes()` at the buffer end) returns the smallest prime above
                               the prime returned last, or throws when there is none below 2^64.
 * `realPrimeIter_specTo`    : `PrimeIter.SpecTo (realPrimeIter …) N` for every `N` with a prime in `[N, 2^64-1]` (under `GenSpec e`).
@@ -84,7 +84,7 @@ theorem sorted_get_le {l : List ℕ} (hs : l.Pairwise (· < ·)) {i j : ℕ} {a 
     `primes_[++i_]` or the refill `generate_next_primes()` at the buffer end, it returns the smallest prime above the prime `p`
     returned last — i.e. exactly `it.nextGe (p + 1)` of the position-indexed abstraction — and the object is again in a state of
     this kind; provided a prime `> p` exists below 2^64 (otherwise the real call throws) -/
-theorem nextPrime_step (e : Env) (he : GenSpec e) (s : St) (p : ℕ) (h : FwdAt s p)
+theorem nextPrime_stepAt (e : Env) (he : GenSpec e) (s : St) (p : ℕ) (h : FwdAt s p)
     (hprime : ∃ q, q.Prime ∧ p + 1 ≤ q ∧ q ≤ umax) :
     ∃ q s', nextPrime e s = .ok (q, s') ∧ FwdAt s' q ∧ q.Prime ∧ p + 1 ≤ q ∧ ∀ m, p + 1 ≤ m → m < q → ¬ m.Prime := by
   obtain ⟨n0, L, hL, hP, hr, hLu⟩ := h.buf
@@ -148,7 +148,7 @@ theorem realPrimeIter_specTo (e : Env) (he : GenSpec e) (hp hn : ℕ → ℕ) (h
 /-- the real iterator meets the C06 iterator contract at every position `≤ 2^63` (Bertrand: a prime in `(2^63, 2^64)`) -/
 theorem realPrimeIter_specTo_two63 (e : Env) (he : GenSpec e) (hp hn : ℕ → ℕ) (hhn : ∀ n, hn n ≤ umax) :
     (realPrimeIter e hp hn).SpecTo (2 ^ 63) :=
-  realPrimeIter_specTo e he hp hn hhn (2 ^ 63) (by unfold umax; omega) exists_prime_two63
+  realPrimeIter_specTo e he hp hn hhn (2 ^ 63) (by unfold umax; omega) exists_prime_ge_two63
 
 /-! ## `k` calls on ONE object = the position-indexed walk -/
 
@@ -166,7 +166,7 @@ theorem nextK_running (e : Env) (he : GenSpec e) :
     have hex : ∃ q, q.Prime ∧ p + 1 ≤ q ∧ q ≤ umax :=
       ⟨_, Nat.prime_nth_prime (Nat.count Nat.Prime (p + 1)), Nat.le_nth_count hInf _,
         le_trans (Nat.nth_monotone hInf (by omega)) hN⟩
-    obtain ⟨q, s', h1, h2, hq, hpq, hmin⟩ := nextPrime_step e he s p h hex
+    obtain ⟨q, s', h1, h2, hq, hpq, hmin⟩ := nextPrime_stepAt e he s p h hex
     have hqn : q = Nat.nth Nat.Prime (Nat.count Nat.Prime (p + 1)) := nthp_next_eq_nth hpq hq hmin
     have hc : Nat.count Nat.Prime (q + 1) = Nat.count Nat.Prime (p + 1) + 1 := by
       rw [hqn]; exact Nat.count_nth_succ_of_infinite hInf _
@@ -248,7 +248,7 @@ theorem prevK_running (e : Env) (he : GenSpec e) :
   | zero => intro s p last _ _; rfl
   | succ k ih =>
     intro s p last h hk
-    obtain ⟨s', h1, h2⟩ := prevPrime_step e he s p h
+    obtain ⟨s', h1, h2⟩ := prevPrime_stepAt e he s p h
     obtain ⟨h0, _, hr, hpi⟩ := findGreatest_facts (p - 1) (by omega)
     rw [prevK, h1]
     simp only [if_neg h0]
